@@ -91,6 +91,7 @@ def decode(data: bytes) -> dict:
     if case["transport"] == "unix" and d.p(0.25):
         case["stale"] = True          # a socket file left behind at the address by an earlier process (asyncio replaces it)
     case["log_debug"] = d.p(0.12)
+    case["busy"] = d.p(0.35) and not case["cli"]       # the pool has two running tasks all along: clients come and go around them
     if d.p(0.3):
         # keyword arguments the server passes through to asyncio.start_server / start_unix_server
         case["kwargs"] = d.pick(SERVER_KWARGS)
@@ -141,7 +142,7 @@ class C19Engine(Engine):
             del c["events"][i]
             c["stop_at"] = min(c["stop_at"], len(c["events"]))
             out.append(c)
-        for key in ("cli", "dual", "restart", "restart_early"):
+        for key in ("cli", "dual", "restart", "restart_early", "busy", "log_debug"):
             if case.get(key):
                 c = copy.deepcopy(case)
                 c[key] = False
@@ -174,6 +175,15 @@ class C19Engine(Engine):
             pname = f"S{os.getpid()}x{C19Engine.counter}"
             pool = TaskPool(name=pname)
             full = ("TaskPool-" + pname).encode()
+            if case.get("busy") and not case.get("cli"):
+                from ..ctl import hmod
+                hmod.reset()
+                pool.apply(hmod.gated, num=2)
+                for _ in range(4):
+                    await asyncio.sleep(0)
+                labels.add("pool:two-tasks-running-throughout")
+                if pool.num_running != 2:
+                    state["inconclusive"] = "busy pool not up"
             labels.add("transport:" + case["transport"])
             skw = dict(case.get("kwargs") or {})
             if skw:
@@ -265,6 +275,8 @@ class C19Engine(Engine):
 
             async def ask(c: Client, k: int) -> None:
                 line, want = CMDS[k]
+                if line == "num-running":
+                    want = str(pool.num_running)
                 try:
                     c.w.write(line.encode() + b"\n")  # type: ignore[union-attr]
                     await c.w.drain()  # type: ignore[union-attr]
@@ -395,6 +407,8 @@ class C19Engine(Engine):
                         continue
                     # two command lines in one segment: two replies, in order
                     (l1, w1), (l2, w2) = CMDS[ev["k"]], CMDS[ev["k2"]]
+                    w1 = str(pool.num_running) if l1 == "num-running" else w1
+                    w2 = str(pool.num_running) if l2 == "num-running" else w2
                     labels.add("pipelined-commands")
                     try:
                         c.w.write(l1.encode() + b"\n" + l2.encode() + b"\n")
@@ -456,7 +470,7 @@ class C19Engine(Engine):
                     other["w"].write(b"num-running\n")
                     await other["w"].drain()
                     rep = await asyncio.wait_for(other["r"].readline(), BOUND)
-                    if rep != b"0\n":
+                    if rep != str(pool.num_running).encode() + b"\n":
                         fail("dual/second-server-client-not-served", repr(rep))
                 except asyncio.TimeoutError:
                     if await idle_witness():
@@ -519,7 +533,7 @@ class C19Engine(Engine):
                         w.write(b"num-running\n")
                         await w.drain()
                         rep = await asyncio.wait_for(r.readline(), BOUND)
-                        if (name, rep) != (full + b"\n", b"0\n"):
+                        if (name, rep) != (full + b"\n", str(pool.num_running).encode() + b"\n"):
                             fail("restart/new-incarnation-does-not-serve", f"{name!r} {rep!r}")
                         w.close()
                     except asyncio.TimeoutError:
@@ -606,7 +620,7 @@ class C19Engine(Engine):
                 w.write(b"num-running\n")
                 await w.drain()
                 rep = await asyncio.wait_for(r.readline(), BOUND)
-                if rep != b"0\n":
+                if rep != str(pool.num_running).encode() + b"\n":
                     fail("restart/command", repr(rep))
                 w.close()
                 await asyncio.wait_for(w.wait_closed(), BOUND)
